@@ -771,10 +771,16 @@ impl<E: Effect> Executor<E> {
         // Store the result in the process's awaiting map (retaining as it enters storage).
         if self.get_process(awaiter).is_some() {
             self.retain(&injected_result);
-            self.get_process_mut(awaiter)
+            let replaced = self
+                .get_process_mut(awaiter)
                 .unwrap()
                 .awaiting
                 .insert(awaited, Some(injected_result));
+            // The same result can be delivered twice (by the local completion notification and by
+            // the environment's answer); the copy it replaces leaves storage here.
+            if let Some(Some(replaced)) = replaced {
+                self.release(&replaced);
+            }
         }
 
         // Re-queue awaiter to retry its Select instruction
@@ -2228,8 +2234,16 @@ impl<E: Effect> Executor<E> {
 
         // If we found PIDs, register awaits before processing sources
         if !pid_targets.is_empty() {
+            // A result kept from an earlier await of the same process leaves storage as its entry
+            // is reset.
+            let mut replaced = Vec::new();
             for target in &pid_targets {
-                process.awaiting.insert(*target, None);
+                if let Some(Some(old)) = process.awaiting.insert(*target, None) {
+                    replaced.push(old);
+                }
+            }
+            for old in &replaced {
+                self.release(old);
             }
 
             self.mark_selecting(pid);
